@@ -31,6 +31,28 @@ def task_name() -> str:
     return t.get_name() if t is not None else "loop"
 
 
+_uid = [0]
+
+
+def task_key() -> str:
+    """Name plus a per-task serial: library task names ('SPA:Ping loop') are reused by every new connection."""
+    try:
+        t = asyncio.current_task()
+    except RuntimeError:
+        return "loop"
+    if t is None:
+        return "loop"
+    u = getattr(t, "_verif_uid", None)
+    if u is None:
+        _uid[0] += 1
+        u = _uid[0]
+        try:
+            t._verif_uid = u
+        except AttributeError:
+            pass
+    return f"{t.get_name()}#{u}"
+
+
 def make_spaman_class():
     from geckolib import GeckoAsyncSpaMan
 
@@ -61,6 +83,7 @@ def make_spaman_class():
                 "facade_present": facade is not None,
                 "sensor": sensor.state if sensor is not None else None,
                 "task": task_name(),
+                "task_key": task_key(),
                 "kwargs": kwargs,
             }
             self.deliveries.append(d)
@@ -70,7 +93,11 @@ def make_spaman_class():
                 dt = self.s_suspend.uniform(0.0, self.suspend_max)
                 w.result.fault("client_handler_suspend")
                 d["suspended"] = dt
-                await asyncio.sleep(dt)
+                try:
+                    await asyncio.sleep(dt)
+                except asyncio.CancelledError:
+                    d["cancelled_in_handler"] = True     # the client's own handler was cut: nothing after it can be delivered
+                    raise
                 d["resumed_seq"] = w.log.seq
 
     return SimSpaMan
